@@ -270,6 +270,105 @@ func runModelCases(seed uint64, n int, outDir string, extra map[string]interface
 		}
 	}
 	extra["htmltype_cases_exhaustive"] = nt
+	// the attribute loop (Html/HtmlAttrLoop.v): ordinary attributes on ordinary elements; both processed forms of every value
+	// are computed here with the dependency's helpers, the model chooses by the regenerated trait table
+	aTags := []string{"div", "span", "p", "form", "td", "col", "button", "area", "ul", "x-custom", "section", "th", "colgroup", "label"}
+	aNames := []string{"class", "id", "dir", "name", "title", "lang", "hidden", "disabled", "checked", "method", "shape", "colspan", "rowspan", "span",
+		"action", "data-x", "aria-label", "about", "property", "content", "value", "alt", "role", "width", "type", "readonly", "translate", "tabindex", "rel"}
+	aVals := []string{"", "a", "a b", " a ", "x  y", "&amp;", "a&quot;b", "it's", "say \"hi\"", "get", "GET", "rect", "1", "one", "all", "submit", "text", "a=b",
+		"1<2", "b>a", "`", "é", "&#39;", "Post", " get ", "RECT", "  ", "a\tb", "a&amp;b", "0"}
+	nal := 0
+	for k := 0; k < n; k++ {
+		tag := aTags[r.Intn(len(aTags))]
+		na := 1 + r.Intn(3)
+		used := map[string]bool{}
+		var src strings.Builder
+		src.WriteString("<" + tag)
+		var enc []string
+		for j := 0; j < na; j++ {
+			name := aNames[r.Intn(len(aNames))]
+			if used[name] || name == "action" && tag != "form" && r.Intn(2) == 0 {
+				continue
+			}
+			if name == "type" && tag != "button" { // type goes through media-type handling on other elements
+				continue
+			}
+			used[name] = true
+			val := aVals[r.Intn(len(aVals))]
+			if name == "action" { // a URL attribute: its value handling (trimming, scheme stripping) is outside this model
+				val = r.Pick("", "", "a", "x")
+			}
+			q := byte('"')
+			switch r.Intn(4) {
+			case 0:
+				q = '\''
+			case 1:
+				if val != "" && !strings.ContainsAny(val, " \t\n\"'`=<>") {
+					q = 0
+				}
+			}
+			if q != 0 && strings.IndexByte(val, q) >= 0 {
+				if q == '"' {
+					q = '\''
+				} else {
+					q = '"'
+				}
+				if strings.IndexByte(val, q) >= 0 {
+					continue
+				}
+			}
+			src.WriteString(" " + name + "=")
+			if q != 0 {
+				src.WriteByte(q)
+			}
+			src.WriteString(val)
+			if q != 0 {
+				src.WriteByte(q)
+			}
+			ent := parse.ReplaceEntities([]byte(val), htmlmin.EntitiesMap, nil)
+			trim := parse.TrimWhitespace(parse.ReplaceMultipleWhitespaceAndEntities([]byte(val), htmlmin.EntitiesMap, nil))
+			enc = append(enc, fmt.Sprintf("%s:%s:%s:%d", hx([]byte(name)), hx(ent), hx(trim), q))
+		}
+		if len(enc) == 0 {
+			if os.Getenv("HTMLORACLE_DEBUG") != "" {
+				fmt.Fprintf(os.Stderr, "attrout empty: na=%d tag=%s\n", na, tag)
+			}
+			continue
+		}
+		src.WriteString(">x</" + tag + ">")
+		o := &htmlmin.Minifier{KeepDefaultAttrVals: r.Intn(3) == 0, KeepQuotes: r.Intn(3) == 0}
+		var out, out0 bytes.Buffer
+		if err := o.Minify(m, &out, strings.NewReader(src.String()), nil); err != nil {
+			if os.Getenv("HTMLORACLE_DEBUG") != "" {
+				fmt.Fprintf(os.Stderr, "attrout err: %v %q\n", err, src.String())
+			}
+			continue
+		}
+		o.Minify(m, &out0, strings.NewReader("<"+tag+">x</"+tag+">"), nil)
+		pre := "<" + tag
+		if !strings.HasPrefix(out0.String(), pre+">") { // the element itself is rewritten (attribute-less colgroup is dropped)
+			continue
+		}
+		suffix := out0.String()[len(pre):] // ">x</tag>" or ">x"
+		os_ := out.String()
+		if !strings.HasPrefix(os_, pre) || !strings.HasSuffix(os_, suffix) {
+			if os.Getenv("HTMLORACLE_DEBUG") != "" {
+				fmt.Fprintf(os.Stderr, "attrout skip: %q -> %q (suffix %q)\n", src.String(), os_, suffix)
+			}
+			continue
+		}
+		attrs := os_[len(pre) : len(os_)-len(suffix)]
+		b2 := func(b bool) string {
+			if b {
+				return "1"
+			}
+			return "0"
+		}
+		fmt.Fprintf(fin, "htmlattrout\t%s%s\t%s\t%s\n", b2(o.KeepDefaultAttrVals), b2(o.KeepQuotes), tag, strings.Join(enc, ","))
+		fmt.Fprintf(fout, "%s\n", hx([]byte(attrs)))
+		nal++
+	}
+	extra["htmlattrout_cases"] = nal
 	// attribute quoting
 	alphabet := []byte("ab \t\n\"'<>=`&;#39x/")
 	na := 0
